@@ -79,6 +79,7 @@ ARRAY_ALPHABET = [
     call('ok', 1), call('ok'), call('nop', 2), call('nop'), call('perr', 3), call('perr'), call('boom', 4),
     call('boom'), call('nope', 5), call('add', 6, [1]),
     1, {}, [], {'jsonrpc': '2.0', 'method': 1, 'id': 7},
+    call('ok', 0), call('boom', ''), call('nop', 0), call('ok', 1), call('ok', None),
 ]
 
 
@@ -238,7 +239,7 @@ def run_case(case, rec):
 def run(ctx):
     ctx.rule = ('E1: G1 = every string of <= %d (sync) / %d (async) tokens over %r; G2 = product of member alphabets '
                 'for single objects (jsonrpc x id x method x params x extra member), all scalars, all arrays of length '
-                '<= %d over a 14-element alphabet x max_batch_size {None,0,1,2,n}; G3 = lexical edges (integer literals '
+                '<= %d over a 19-element alphabet (incl. repeated and falsy ids) x max_batch_size {None,0,1,2,n}; G3 = lexical edges (integer literals '
                 'of %r digits, non-finite / extreme floats, every escape / control / surrogate / astral character, '
                 'nesting 1..64, whitespace / BOM / duplicate members) at 14 positions. state = one (dispatcher, '
                 'max_batch_size, text) point, distinct by construction; non-trivial = answered with anything other '
